@@ -103,7 +103,8 @@ _tv("C16", "natural_join of every type and key specification on each backend aga
     "translation validation against a reference join (z3 per-path equality): real _natural_join_step over the model, SQLite right/full emulation text, generic SQL under the PostgreSQL model",
     "DESIGN.md §4 C16")
 _tv("C27", "Ordered window functions for 0-2 partition columns and 1-2 order columns with every reversal pattern on each backend against an order-free reference "
-    "(position = number of partition mates at or before the row) under the total-order premise; z3 decides equality per structural path.",
+    "(position = number of partition mates at or before the row) under the total-order premise, also with the window step directly after an extend that overwrites or "
+    "creates its order / partition column; z3 decides equality per structural path.",
     "translation validation against an order-free window reference (z3), backends: real Pandas window realisation over the model, SQLite / PostgreSQL-model window SQL",
     "DESIGN.md §4 C27")
 
@@ -162,15 +163,18 @@ CHECKS["C26"] = dict(
     technique="solver-enumerated equality patterns of symbolic column names (z3 Strings, forksym) driving a differential build: step on the real prefix vs on a fresh description; plus a documented-rule table",
     text="For every prefix (incl. ones the builder simplifies away) x step kind the step's column arguments are symbolic strings; each solver-feasible equality pattern "
          "with the names the builder can compare against is one path on which the step is built on the prefix and on a fresh TableDescription of the prefix's columns: "
-         "accept/reject and declared columns must agree. Documented rules: one violating and one conforming step per rule after every prefix.",
-    note="Expressions inside steps are concrete text (lark is opaque). The rule table is finite and written from the property statement. Trusted: z3, forksym.",
+         "accept/reject and declared columns must agree. Documented rules: one violating and one conforming step per rule after every prefix; two-assignment extend / "
+         "project steps whose targets and columns read are all symbolic names are decided against an oracle written from the rule text on every equality pattern.",
+    note="Expression shapes inside steps are concrete text (lark is opaque), names symbolic. The rule table and oracle are written from the property statement. Trusted: z3, forksym.",
     design_ref="DESIGN.md §4 C26", engine="forksym+z3")
 
 _tv("C05", "Obligations read from the live method catalog: for every row x backend marked supported the single-step pipeline of the catalog's example expression "
     "over symbolic (nullable) argument columns is compared by z3 with the method's documented scalar meaning (reference table written from the Term.* docstrings), "
-    "or, where the docs are silent, with the other backends that claim the method.",
+    "or, where the docs are silent, with the other backends that claim the method; the Polars executor is compared per method (it may raise); methods that only "
+    "test/select/order values are also decided with +/-infinity among the arguments (two extreme symbolic constants, witnesses carry real inf).",
     "per-(method, backend) translation validation against a documented-meaning reference table (z3 per-path equality)", "DESIGN.md §4 C05",
-    "Outside: date/time methods, _uniform, any_value (documented as arbitrary), string methods, std/var/median, numerical accuracy of transcendental functions.")
+    "Outside: date/time methods, _uniform, any_value (documented as arbitrary), string methods, std/var/median, numerical accuracy of transcendental functions "
+    "(uninterpreted, arguments restricted to the domain), arithmetic on infinities, NaN as distinct from NULL.")
 _tv("C21", "rank_to_average and last_observed_carried_forward: the helper's pipeline executed symbolically (Pandas executor over the model; SQLite text) against a "
     "reference from the docstring (order-free formulas), z3 per-path equality; replicate_rows_query: its finite input domain (counts 1..max_count) enumerated "
     "completely on real pandas and SQLite; def_multi_column_map: enumerated mapping tables on the real engines.",
@@ -183,7 +187,8 @@ _tv("C03", "The repository's PolarsModel (private copy of polars_model.py, eager
     "translation validation: symbolic execution of the real Polars executor over a polars model vs the real Pandas executor over the pandas model (z3 per-path equality)",
     "DESIGN.md §4 C03", "The polars stand-in (vf/sym/plshim.py) is validated on each run's witnesses against real polars.")
 _tv("C17", "Enumerated control-table layouts x symbolic row-record data: rows->blocks vs a reference unpivot, blocks->rows of row/column-permuted conforming blocks vs the "
-    "original records, inverse round trip, Pandas == Polars, through the real RecordMap and both executors' record transforms over the models (z3 per-path equality); "
+    "original records, inverse round trip, Pandas == Polars, through the real RecordMap and both executors' record transforms over the models, and through the SQL text "
+    "to_sql emits for convert_records (SQLite, PostgreSQL model) interpreted over the same symbolic tables (z3 per-path equality); "
     "compose() vs sequential application on example inputs.",
     "translation validation of record transforms against a reference unpivot / the original records (z3), layouts enumerated, data symbolic", "DESIGN.md §4 C17",
     "compose() is checked concretely on example inputs (it is built from example data).")
